@@ -25,7 +25,7 @@ def extract_fixture(path):
     build.build_tool()
     with open(path, "rb") as fh:
         h = hashlib.sha256(fh.read())
-    for inc in sorted(glob.glob(os.path.join(FIXTURES, "*.h"))):
+    for inc in sorted(glob.glob(os.path.join(FIXTURES, "**", "*.h"), recursive=True)):
         with open(inc, "rb") as fh:
             h.update(fh.read())
     h.update(str(os.path.getmtime(build.TOOL_BIN)).encode())
@@ -109,6 +109,7 @@ def analyse(prop, tier="quick", root=None, quiet=False):
         prog = ir.Program.load(files)
         prog.extract_info = info
         prog.config = cfg
+        prog.current_prop = prop
         cfg_infos.append({"config": cfg.name, "units": len(info["units"]), "functions": len(prog.functions),
                           "classes": len(prog.classes), "tolerated_diags": sum(len(v) for v in info["tolerated_diags"].values())})
         for rname in spec["rules"]:
@@ -125,8 +126,12 @@ def analyse(prop, tier="quick", root=None, quiet=False):
                     all_obs[o.key] = o
     # fixtures
     fixture_results = []
+    from . import props as _props
     for rname in spec["rules"]:
-        fr = run_fixtures(rname, RULES[rname])
+        if rname in getattr(_props, "SELFTESTS", {}):
+            fr = _props.SELFTESTS[rname]()
+        else:
+            fr = run_fixtures(rname, RULES[rname])
         if not fr:
             broken.append("rule %s has no fixture" % rname)
         for r in fr:
